@@ -66,6 +66,9 @@ def run(ctx):
     # FASTA conversion stores every row through FastaFile.__setitem__ and reads the recorded line ranges back
     from .C12 import fasta_append_rules
     fasta_append_rules(ctx, "R4")
+    # an alignment written to a FastaFile is read back through the file's index: every change of the lines keeps it up to date
+    from .C12 import lines_index_coupling
+    lines_index_coupling(ctx, ("FastaFile",), "R4", 3)
     # copies made by align_multiple() / the conversions keep the alphabet (decided by value, not by identity)
     from ..lints import alphabets_compared_by_value
     alphabets_compared_by_value(ctx, "sequence/seqtypes.py", "R6.alphabet-compared-by-value", 1)
